@@ -998,8 +998,18 @@ class Host(utils.EventEmitter):
 
     def on_transport_lost(self):
         # Called by the source when the transport has been lost.
-        if self.pending_response:
+        if self.pending_response and not self.pending_response.done():
             self.pending_response.set_exception(TransportLostError('transport lost'))
+
+        # The connections are gone with the transport
+        for handle in [*self.connections, *self.cis_links, *self.sco_links]:
+            self.on_hci_disconnection_complete_event(
+                hci.HCI_Disconnection_Complete_Event(
+                    status=hci.HCI_SUCCESS,
+                    connection_handle=handle,
+                    reason=hci.HCI_HARDWARE_FAILURE_ERROR,
+                )
+            )
 
         self.emit('flush')
 
